@@ -153,8 +153,25 @@ ReplaceLikeC(e, pre, post, old, count, newIsReg, newReg, newText, exemptEmpty) =
      \o Cl("C11.replace_nomatch", occ = << >> /\ HasStyle(v), occ = << >> => StyIs(w, << <<"reg", e.r, 0, n>> >>, pre))
      \o KindC(e, pre, post, v.k)
 
+\* A plain str replacement that contains escape sequences is converted like any str argument (parsed on its own, see
+\* C05.plain_escape_operands): the TEXT of the result is str.replace with the parsed text of the replacement - in
+\* particular every match is replaced, whatever the raw length of the replacement.
+ReplaceEscC(e, pre, post) ==
+  LET v == pre[e.r] n == Len(v.t) new == pre[e.a.new].t old == e.a.old
+      tk == Tokens(new)
+      claim == old # << >> /\ NoEsc(v.t) /\ InClaimCS(new) /\ (\A j \in DOMAIN tk : tk[j][1] \in {"c", "sgr"})
+               /\ (\A j \in DOMAIN tk : tk[j][1] = "sgr" => SgrStrictOK(tk[j][2]))
+      parsed == CharsOf(tk)
+      occ == IF claim THEN Occurrences(v.t, old, e.a.count) ELSE << >>
+      repl == [i \in 0..n |-> <<"lit", parsed, "at", e.r, i>>]
+      segs == ReplSegs(e.r, n, occ, 1, Len(old), repl)
+  IN Cl("C10.replace_escape_defined", claim, claim => e.out = "ok")
+  \o IF ~HasResult(e) \/ ~claim THEN None ELSE
+        Cl("C10.replace_escape_text", TRUE, ResultOf(e, post).t = ExpT(segs, pre, 1))
+
 ReplaceC(e, pre, post) ==
-  ReplaceLikeC(e, pre, post, e.a.old, e.a.count, TRUE, e.a.new, pre[e.a.new].t, TRUE)
+  IF pre[e.a.new].k = "P" /\ ~NoEsc(pre[e.a.new].t) THEN ReplaceEscC(e, pre, post)
+  ELSE ReplaceLikeC(e, pre, post, e.a.old, e.a.count, TRUE, e.a.new, pre[e.a.new].t, TRUE)
 ExpandtabsC(e, pre, post) ==
   IF e.a.tabsize < 0 THEN None
   ELSE ReplaceLikeC(e, pre, post, <<9>>, -1, FALSE, 0, Rep(32, e.a.tabsize), TRUE)
